@@ -308,7 +308,41 @@ def concurrent_first_calls(m, meta):
             U.get_terminal_size = saved
         if problems:
             break
-    return {"reproduced": bool(problems), "input": f"{N} threads released by a barrier, body sleeping 50 ms", "observed": problems[:3]}
+    # ---- an invalidation that arrives while a first call is still computing: once both have returned, the value computed before the
+    #      invalidation must not be what later calls get (the invalidation has to wait for the call, or win over it)
+    if not problems:
+        saved = U.get_terminal_size
+        U.get_terminal_size = lambda: os.terminal_size((80, 24))
+        try:
+            for deco, inval_name in ((U.cached, "_invalidate_cache"), (U.terminal_size_cached, "_invalidate_terminal_size_cache")):
+                in_body, release = threading.Event(), threading.Event()
+                runs = []
+
+                def body2():
+                    runs.append(len(runs))
+                    if len(runs) == 1:
+                        in_body.set()
+                        release.wait(2)
+                    return len(runs)
+                f = deco(body2)
+                ta = threading.Thread(target=f)
+                ta.start()
+                if not in_body.wait(5):
+                    problems.append(f"{deco.__name__}: the first call never reached the body")
+                    release.set(); ta.join(5)
+                    continue
+                tb = threading.Thread(target=getattr(f, inval_name))
+                tb.start()
+                tb.join(0.3)           # returns at once if it does not wait for the call in progress
+                release.set()
+                ta.join(10); tb.join(10)
+                f()
+                if len(runs) != 2:
+                    problems.append(f"{deco.__name__}: {inval_name}() called while the first call was still computing; after both returned, the next "
+                                    f"call was served the value computed before the invalidation (body runs: {len(runs)}, expected 2)")
+        finally:
+            U.get_terminal_size = saved
+    return {"reproduced": bool(problems), "input": f"{N} threads released by a barrier, body sleeping 50 ms; an invalidation during a first call", "observed": problems[:3]}
 
 
 def toggle_publication(m, meta):
